@@ -11,6 +11,8 @@ pub mod c14;
 pub mod c16;
 pub mod c17;
 pub mod c18;
+pub mod c19;
+pub mod c20;
 
 pub struct Prop {
     pub id: &'static str,
@@ -36,5 +38,5 @@ pub const COMMON_ASSUMPTIONS: [&str; 4] = [
 ];
 
 pub fn registry() -> Vec<Prop> {
-    vec![c01::prop(), c02::prop(), c05::prop(), c06::prop(), c14::prop(), c16::prop(), c17::prop(), c18::prop()]
+    vec![c01::prop(), c02::prop(), c05::prop(), c06::prop(), c14::prop(), c16::prop(), c17::prop(), c18::prop(), c19::prop(), c20::prop()]
 }
